@@ -15,33 +15,10 @@
  *   <caseid> <mode> <flags> <u> <len> <hash> <loaded|failed|skipped-F05x>      to <outdir>/plan.txt
  * and the dumps to <outdir>/dump.txt (tags <caseid>, <caseid>r = re-import of the v3 export, <caseid>d = dup).
  *
- * KNOWN DEFECT CLASSES of /repo (decided on the mutant BEFORE loading, see known_class(); each is re-enabled by
- * VERIF_INCLUDE_F05A=1 ... VERIF_INCLUDE_F05O=1; F05g-F05o were found by this engine):
- *  F05a nolibxml, modes B/F: after the <?xml / <!DOCTYPE lines sscanf("<topology version=\"%u.%u\">")==2 and no '>' up
- *       to the first NUL: hwloc_nolibxml_look_init() computes strchr(..)+1 = NULL+1.                       [exact]
- *  F05b size <= 0 given to set_xmlbuffer / diff_load_xmlbuffer: nolibxml writes buffer[size-1] of a malloc(size) block.
- *       Never generated unless the switch is set.                                                          [exact]
- *  F05c both back ends, modes B/F: version major 2, a <distances2 / <distances2hetero element without name attribute whose
- *       kind has the LATENCY bit: strcmp(NULL, "XGMIHops") (topology-xml.c:1422).  Predicate: NO_DISTANCES not set, the
- *       version is not positively known to be != 2, some "<distances2" tag text has no ` name="` and its kind is not
- *       positively known to lack bit 2.                                                                    [over-approximate]
- *  F05d both back ends, modes B/F: hwloc__xml_import_object() only checks cpuset and nodeset of normal/memory objects;
- *       complete_cpuset stays NULL when the attribute is absent (hwloc__xml_import_object_attr allocates it only when it
- *       sees the attribute).  After the children of an object are inserted, the loop at topology-xml.c:1038-1046 calls
- *       hwloc_bitmap_compare_first(next->complete_cpuset, cur->complete_cpuset) on every pair of consecutive NORMAL
- *       children (first_child list; memory/I-O/Misc children live in other lists), so the class is: an object ends up
- *       with >= 2 normal children one of which has no complete_cpuset attribute.  Children of ignored (filtered)
- *       objects are re-attached to the grand-parent, so "sibling" cannot be decided locally.  Predicate: some non-root
- *       <object tag of normal (or undecidable) type, see obj_type(), has no complete_cpuset attribute, and the document
- *       holds at least two non-root <object tags of normal (or undecidable) type.                                                                           [over-approximate]
- *       The same missing attribute on the ROOT object is F05h below.
- *  F05e nolibxml, all modes: the len content bytes end with `="`: hwloc__nolibxml_import_next_attr() reads value[1]
- *       one byte past the buffer (mode F: hwloc_nolibxml_read_file() allocates one spare byte that is never
- *       initialised, the scan then continues through it and past the allocation).                           [over-approximate: the
- *       `="` must also be reached as an attribute by the parser]
- *  F05f nolibxml + userdata import callback, modes B/F: a non-self-closing <userdata start tag whose `>` is followed by a
- *       byte other than '<' and whose length is 0/absent/unparsable: close_content() without get_content() writes '<'
- *       over that byte (the final NUL in the bad case) and the scanner runs off the buffer.                 [over-approximate]
+ * No input class is excluded: the crash / leak / assert classes F05a..F05o found earlier are fixed in /repo; their minimal
+ * inputs live on as corpus/xmlload/fixed-f05*.xml and must load or fail cleanly.  A sanitizer report, abort, leak or watchdog
+ * hit on ANY input is a violation.  Sizes <= 0 are given to set_xmlbuffer / diff_load_xmlbuffer in ~2 % of the cases (must be
+ * refused).
  */
 #define _GNU_SOURCE
 #include "dump.h"
@@ -83,320 +60,33 @@ static char *read_file(const char *path, size_t *len) {
 static int env_on(const char *name) { const char *s = getenv(name); return s && *s && strcmp(s, "0"); }
 
 static int nolibxml;            /* HWLOC_LIBXML=0 */
-static int inc[16];             /* VERIF_INCLUDE_F05A.. */
-#define INC(c) (inc[(c) - 'a'])
 
-/* ------------------------------------------------------------------ known defect classes */
 static int name_char(int c) { return (c >= 'a' && c <= 'z') || (c >= '0' && c <= '9') || c == '_'; }
 
-/* value of attribute `name` inside the tag text [t, t+n): returns 1 and copies it when it occurs exactly once, is
- * preceded by a blank and holds no '&' (so that both back ends see these very bytes); 0 when absent; -1 otherwise */
-static int tag_attr(const unsigned char *t, size_t n, const char *name, char *out, size_t cap) {
-  size_t nl = strlen(name); int found = 0;
-  for (size_t i = 0; i + nl + 2 <= n; i++) {
-    if (memcmp(t + i, name, nl) || t[i + nl] != '=' ) continue;
-    if (i > 0 && name_char(t[i - 1])) continue;       /* e.g. complete_cpuset vs cpuset */
-    if (found) return -1;
-    if (i == 0 || !isspace(t[i - 1]) || t[i + nl + 1] != '"') return -1;
-    const unsigned char *q = memchr(t + i + nl + 2, '"', n - (i + nl + 2));
-    if (!q) return -1;
-    size_t vl = q - (t + i + nl + 2);
-    if (vl + 1 > cap || memchr(t + i + nl + 2, '&', vl) || memchr(t + i + nl + 2, 0, vl)) return -1;
-    memcpy(out, t + i + nl + 2, vl); out[vl] = 0; found = 1;
+/* Pre-load recognition of OPEN defect classes (the former classes F05a..F05o are fixed: nothing of them is skipped any more).
+ *  F71 (nolibxml, modes B/F): an <object> tag with two `type` attributes (nolibxml does not refuse duplicate attributes): the
+ *      type-specific attributes read after the first type are stored in the attr union and reinterpreted by the second type,
+ *      e.g. <object type="L1" cache_associativity="2" type="NUMA">: numanode.page_types = garbage -> free() of a wild pointer in
+ *      hwloc__free_object_contents (topology.c:686).  Predicate (over-approximate): between two consecutive '>' bytes the text
+ *      `type="` occurs twice with a preceding byte that is not [a-z_].  VERIF_INCLUDE_F71=1 re-enables the class. */
+static int class_f71(const unsigned char *p, size_t n) {
+  unsigned cnt = 0;
+  for (size_t i = 0; i < n; i++) {
+    if (p[i] == '>') { cnt = 0; continue; }
+    if (i + 6 <= n && !memcmp(p + i, "type=\"", 6) && !(i > 0 && ((p[i - 1] >= 'a' && p[i - 1] <= 'z') || p[i - 1] == '_'))) { if (++cnt >= 2) return 1; }
   }
-  return found;
-}
-/* does the tag text hold the attribute name at all (any spelling the parsers could accept)? */
-static int tag_has_attr(const unsigned char *t, size_t n, const char *name) {
-  size_t nl = strlen(name);
-  for (size_t i = 0; i + nl + 1 <= n; i++)
-    if (!memcmp(t + i, name, nl) && (i == 0 || !name_char(t[i - 1])) && !name_char(t[i + nl])) return 1;
   return 0;
 }
-static size_t tag_end(const unsigned char *p, size_t n, size_t from) { /* offset of the first '>' at or after from, or n */
-  const unsigned char *q = memchr(p + from, '>', n - from); return q ? (size_t) (q - p) : n;
-}
-
-/* is the tag text [t, t+n) (from '<' up to, not including, the first '>') a clean sequence of ` name="value"` pairs that both
- * back ends read identically?  (nolibxml stops reading attributes at the first malformed one, so an attribute only counts
- * as present when everything before it is clean as well.) */
-static int tag_clean(const unsigned char *t, size_t n) {
-  size_t i = 1;
-  while (i < n && name_char(t[i])) i++;
-  for (;;) {
-    if (i == n) return 1;
-    if (t[i] == '/' && i + 1 == n) return 1;
-    if (t[i] != ' ') return 0;
-    while (i < n && t[i] == ' ') i++;
-    if (i == n) return 1;
-    if (t[i] == '/' && i + 1 == n) return 1;
-    size_t s = i; while (i < n && ((t[i] >= 'a' && t[i] <= 'z') || t[i] == '_')) i++;
-    if (i == s || i + 1 >= n || t[i] != '=' || t[i + 1] != '"') return 0;
-    i += 2;
-    while (i < n && t[i] != '"') { if (t[i] == '&' || t[i] == '<' || t[i] < 0x20 || t[i] >= 0x7f) return 0; i++; }
-    if (i == n) return 0;
-    i++;
-  }
-}
-/* attribute positively present (exactly once, in a clean tag) */
-static int has_ok(const unsigned char *t, size_t n, const char *name) {
-  char v[4096];
-  return tag_clean(t, n) && tag_attr(t, n, name, v, sizeof v) == 1;
-}
-
-static int class_a(const char *copy) {
-  const char *b = copy; unsigned ma, mi;
-  while (!strncmp(b, "<?xml ", 6) || !strncmp(b, "<!DOCTYPE ", 10)) { b = strchr(b, '\n'); if (!b) return 0; b++; }
-  return sscanf(b, "<topology version=\"%u.%u\">", &ma, &mi) == 2 && !strchr(b, '>');
-}
-static int version_maybe_2(const unsigned char *p, size_t n) {
-  const unsigned char *t = xmemmem(p, n, "<topology");
-  if (!t) return 1;
-  size_t off = t - p, e = tag_end(p, n, off); char v[64]; unsigned ma, mi;
-  if (tag_attr(p + off, e - off, "version", v, sizeof v) == 1 && sscanf(v, "%u.%u", &ma, &mi) == 2 && ma != 2) return 0;
-  return 1;
-}
-static int class_c(const unsigned char *p, size_t n, unsigned long flags) {
-  if (flags & HWLOC_TOPOLOGY_FLAG_NO_DISTANCES) return 0;
-  if (!version_maybe_2(p, n)) return 0;
-  size_t off = 0;
-  for (;;) {
-    const unsigned char *t = xmemmem(p + off, n - off, "<distances2");
-    if (!t) return 0;
-    size_t s = t - p, e = tag_end(p, n, s); char v[64];
-    if (!has_ok(p + s, e - s, "name")) {
-      int r = tag_clean(p + s, e - s) ? tag_attr(p + s, e - s, "kind", v, sizeof v) : -1;
-      if (!(r == 1 && !(strtoul(v, NULL, 10) & HWLOC_DISTANCES_KIND_VALUE_LATENCY))) return 1;
-    }
-    off = s + 1;
-  }
-}
-/* type of an <object tag as the importer will compute it (hwloc_type_sscanf itself is used): >= 0 hwloc type,
- * -1 the import of this object fails (no/unknown type), -2 cannot be decided here (be conservative) */
-static int obj_type(const unsigned char *t, size_t n) {
-  char v[64]; hwloc_obj_type_t ty;
-  if (!tag_clean(t, n)) return -2;
-  int r = tag_attr(t, n, "type", v, sizeof v);
-  if (r == 0 && !tag_has_attr(t, n, "type")) return xmemmem(t, n, "=\"") ? -1 : -2;
-  if (r != 1) return -2;
-  for (char *c = v; *c; c++) if ((unsigned char) *c < 0x20 || (unsigned char) *c >= 0x7f) return -2;
-  if (hwloc_type_sscanf(v, &ty, NULL, 0) < 0) return (!strcasecmp(v, "Tile") || !strcasecmp(v, "Module") || !strcasecmp(v, "Cluster")) ? (int) HWLOC_OBJ_GROUP : -1;
-  return (int) ty;
-}
-static int class_d(const unsigned char *p, size_t n) {
-  size_t off = 0; unsigned idx = 0, maybe_normal = 0, lacking = 0;
-  for (;;) {
-    const unsigned char *t = xmemmem(p + off, n - off, "<object");
-    if (!t) break;
-    size_t s = t - p, e = tag_end(p, n, s); char v[64];
-    off = s + 1;
-    if (idx++ == 0) continue;                               /* root object: see F05h */
-    int ty = obj_type(p + s, e - s); (void) v;
-    if (ty == -1 || (ty >= 0 && !hwloc_obj_type_is_normal((hwloc_obj_type_t) ty))) continue;
-    maybe_normal++;
-    if (!has_ok(p + s, e - s, "complete_cpuset")) lacking++;
-  }
-  return lacking && maybe_normal >= 2;
-}
-static int class_e(const unsigned char *p, size_t n) { return n >= 2 && p[n - 2] == '=' && p[n - 1] == '"'; }
-static int class_f(const unsigned char *p, size_t n) {
-  size_t off = 0;
-  for (;;) {
-    const unsigned char *t = xmemmem(p + off, n - off, "<userdata");
-    if (!t) return 0;
-    size_t s = t - p, e = tag_end(p, n, s); char v[64];
-    off = s + 1;
-    if (e >= n) continue;                                   /* no '>' at all: find_child fails */
-    if (e > 0 && p[e - 1] == '/') continue;                 /* self-closing */
-    if (e + 1 < n && p[e + 1] == '<') continue;             /* the '<' written by close_content is already there */
-    if (tag_attr(p + s, e - s, "length", v, sizeof v) == 1 && strtoul(v, NULL, 10) != 0) continue;
-    return 1;
-  }
-}
-
-/* ---- classes found by this engine (see the report of the engine's author; same conventions) ----
- *  F05g libxml, all modes: a <!DOCTYPE without SYSTEM/PUBLIC identifier: dtd->SystemID is NULL and is given to strcmp()
- *       (topology-xml-libxml.c:190 and :289).  Predicate: some "<!DOCTYPE" whose text up to the next '>' holds neither
- *       "SYSTEM" nor "PUBLIC".                                                                            [over-approximate]
- */
-static int class_g(const unsigned char *p, size_t n) {
-  size_t off = 0;
-  for (;;) {
-    const unsigned char *t = xmemmem(p + off, n - off, "<!DOCTYPE");
-    if (!t) return 0;
-    size_t s = t - p, e = tag_end(p, n, s);
-    off = s + 1;
-    if (!xmemmem(p + s, e - s, "SYSTEM") && !xmemmem(p + s, e - s, "PUBLIC")) return 1;
-  }
-}
-
-/*  F05h both back ends, modes B/F: hwloc__xml_import_object() never checks that the complete_* sets exist.  (1) root object
- *       without complete_cpuset / complete_nodeset attribute: hwloc_insert_object_by_parent() does
- *       hwloc_bitmap_set(root->complete_cpuset /complete_nodeset = NULL) as soon as a PU / NUMA node is inserted
- *       (topology.c:1970 / :1954).  (2) memory object (NUMANode, MemCache) without complete_nodeset: propagate_nodeset()
- *       ORs child->complete_nodeset = NULL (topology.c:2492).  Predicate: the first <object tag lacks one of the two
- *       attributes, or another <object tag of memory (or undecidable) type lacks complete_nodeset.
- *       (Same root cause as F05d.)                                                                        [over-approximate]
- *  F05i both back ends, mode D: hwloc__xml_import_diff() returns -1 on a bad <diff>/child without destroying the entries
- *       already built (topology-xml.c:1841-1852): leak.  Excluded by LeakSanitizer suppression of allocation stacks
- *       through hwloc__xml_import_diff_one.                                                               [by stack]
- *  F05j both back ends, modes B/F: <distances2* nbobjs >= 65536: nbobjs*nbobjs wraps in 32 bits (topology-xml.c:1239,
- *       1347, 1362, 1387), the values array is smaller than nbobjs^2: heap overflow in hwloc_internal_distances_restrict
- *       (distances.c:768) or in the user reading hwloc_distances_s.values.  Predicate: NO_DISTANCES not set and some
- *       <distances2 tag whose nbobjs is present and not positively < 65536.                               [over-approximate]
- *  F05k both back ends, modes B/F: a non-root object whose <info>/<page_type>/<userdata>/unknown child fails to import is
- *       left with `goto error` (topology-xml.c:753, :785) before it was inserted: the object is leaked.  Excluded by
- *       LeakSanitizer suppression of allocation stacks through hwloc__xml_import_object.                  [by stack]
- *  F05l both back ends, modes B/F: <memattr name="Capacity"|"Locality" flags=<the builtin flags>> with a <memattr_value>
- *       child: assert(id != HWLOC_MEMATTR_ID_CAPACITY/LOCALITY) in hwloc_internal_memattr_set_value (memattrs.c:948).
- *       Predicate: NO_MEMATTRS not set and some <memattr tag whose name is present and not positively another name.
- *                                                                                                         [over-approximate]
- *  F05m both back ends, modes B/F: a Bridge object whose downstream type is not PCI (bridge_type="x-y" with y != 1 is
- *       accepted, topology-xml.c:339-346 "FIXME verify"; or no bridge_type at all): hwloc_obj_type_snprintf() aborts on
- *       assert(downstream_type == HWLOC_OBJ_BRIDGE_PCI) (traversal.c:681).  Predicate: some <object tag of type Bridge (or
- *       undecidable) whose bridge_type is not positively "<u>-1".               [over-approximate]
- */
-static int exact_type(const char *v, int set) { /* set 1 = normal, 2 = memory, 4 = I/O non-bridge + Misc */
-  static const char *normal[] = {"Machine", "Package", "Die", "Core", "PU", "L1Cache", "L2Cache", "L3Cache", "L4Cache", "L5Cache", "L1iCache", "L2iCache", "L3iCache", "Group", NULL};
-  static const char *mem[] = {"NUMANode", "MemCache", NULL};
-  static const char *io[] = {"PCIDev", "OSDev", "Misc", NULL};
-  if (set & 1) for (int i = 0; normal[i]; i++) if (!strcmp(v, normal[i])) return 1;
-  if (set & 2) for (int i = 0; mem[i]; i++) if (!strcmp(v, mem[i])) return 1;
-  if (set & 4) for (int i = 0; io[i]; i++) if (!strcmp(v, io[i])) return 1;
-  return 0;
-}
-static int class_h(const unsigned char *p, size_t n) {
-  size_t off = 0; unsigned idx = 0;
-  for (;;) {
-    const unsigned char *t = xmemmem(p + off, n - off, "<object");
-    if (!t) return 0;
-    size_t s = t - p, e = tag_end(p, n, s); char v[64];
-    off = s + 1;
-    if (idx++ == 0) { if (!has_ok(p + s, e - s, "complete_cpuset") || !has_ok(p + s, e - s, "complete_nodeset")) return 1; continue; }
-    if (has_ok(p + s, e - s, "complete_nodeset")) continue;
-    { int ty = obj_type(p + s, e - s); (void) v; if (ty == -1 || (ty >= 0 && !hwloc_obj_type_is_memory((hwloc_obj_type_t) ty))) continue; }
-    return 1;
-  }
-}
-static int class_j(const unsigned char *p, size_t n, unsigned long flags) {
-  size_t off = 0;
-  if (flags & HWLOC_TOPOLOGY_FLAG_NO_DISTANCES) return 0;
-  for (;;) {
-    const unsigned char *t = xmemmem(p + off, n - off, "<distances2");
-    if (!t) return 0;
-    size_t s = t - p, e = tag_end(p, n, s); char v[64];
-    off = s + 1;
-    if (!tag_has_attr(p + s, e - s, "nbobjs")) continue;
-    if (tag_clean(p + s, e - s) && tag_attr(p + s, e - s, "nbobjs", v, sizeof v) == 1 && strlen(v) < 12 && strtoul(v, NULL, 10) < 65536) continue;
-    return 1;
-  }
-}
-static int class_l(const unsigned char *p, size_t n, unsigned long flags) {
-  size_t off = 0;
-  if (flags & HWLOC_TOPOLOGY_FLAG_NO_MEMATTRS) return 0;
-  for (;;) {
-    const unsigned char *t = xmemmem(p + off, n - off, "<memattr");
-    if (!t) return 0;
-    size_t s = t - p, e = tag_end(p, n, s); char v[64];
-    off = s + 1;
-    if (s + 8 < n && name_char(p[s + 8])) continue;        /* <memattr_value */
-    if (!tag_has_attr(p + s, e - s, "name")) continue;
-    if (tag_clean(p + s, e - s) && tag_attr(p + s, e - s, "name", v, sizeof v) == 1 && strcmp(v, "Capacity") && strcmp(v, "Locality")) continue;
-    return 1;
-  }
-}
-static int class_m(const unsigned char *p, size_t n) {
-  size_t off = 0;
-  for (;;) {
-    const unsigned char *t = xmemmem(p + off, n - off, "<object");
-    if (!t) return 0;
-    size_t s = t - p, e = tag_end(p, n, s); char v[64]; unsigned a, b; char c;
-    off = s + 1;
-    { int ty = obj_type(p + s, e - s); if (ty == -1 || (ty >= 0 && ty != HWLOC_OBJ_BRIDGE)) continue; }
-    if (tag_clean(p + s, e - s) && tag_attr(p + s, e - s, "bridge_type", v, sizeof v) == 1 && sscanf(v, "%u-%u%c", &a, &b, &c) == 2 && b == HWLOC_OBJ_BRIDGE_PCI) continue;
-    return 1;
-  }
-}
-
-/*  F05n nolibxml, mode D: hwloc_nolibxml_import_diff() tests `tag` after find_child() returned 0 (the first tag after the
- *       header lines is a closing tag "</..."): `tag` is uninitialised (topology-xml-nolibxml.c:446, :488-491), strcmp() on a
- *       stale pointer (ASan: heap-use-after-free / SEGV).  Predicate: the same header skipping, then blanks, then "</".  [exact]
- */
-static int class_n(const char *copy) {
-  const char *b = copy;
-  while (!strncmp(b, "<?xml ", 6) || !strncmp(b, "<!DOCTYPE ", 10)) { b = strchr(b, '\n'); if (!b) return 0; b++; }
-  b += strspn(b, " \t\n\r");
-  return b[0] == '<' && b[1] == '/';
-}
-
-/*  F05o both back ends, modes B/F: a document whose root object ends up without normal child (Machine + NUMANode only; or all
- *       PUs outside allowed_cpuset / all normal objects with empty cpusets, which the core then removes):
- *       hwloc_connect_levels() calls memcpy(objs, root->children = NULL, 0) (topology.c:3237, UBSan nonnull).  Predicate:
- *       there is an <object tag but (scanning the object open/close tags in order) no positively kept PU inside
- *       the root object, see class_o().                  [over-approximate]
- */
-static int class_o(const unsigned char *p, size_t n, unsigned long flags) {
-  /* scan the <object ...> / <object .../> / </object> tags in order: safe only when a PU object that the core will keep
-   * (its os_index is in the root's allowed_cpuset, or INCLUDE_DISALLOWED) is seen inside the root object: a kept PU keeps
-   * all its ancestors (remove_empty() only drops childless objects), so the root keeps a normal child */
-  size_t off = 0; int depth = 0; unsigned seen = 0; int allowed_known = 0; hwloc_bitmap_t allowed = NULL; int safe = 0;
-  while (off < n && !safe) {
-    const unsigned char *t = memchr(p + off, '<', n - off);
-    if (!t) break;
-    size_t s = t - p, e = tag_end(p, n, s); char v[4096];
-    off = s + 1;
-    if (e - s >= 8 && !memcmp(p + s, "</object", 8)) { depth--; if (depth <= 0 && seen) break; continue; }
-    if (e - s < 7 || memcmp(p + s, "<object", 7) || (e - s > 7 && name_char(p[s + 7]))) continue;
-    if (seen++ == 0) {       /* root: what will topology->allowed_cpuset be? */
-      if (flags & HWLOC_TOPOLOGY_FLAG_INCLUDE_DISALLOWED) allowed_known = 2;                    /* irrelevant */
-      else if (tag_clean(p + s, e - s)) {
-        int r = tag_attr(p + s, e - s, "allowed_cpuset", v, sizeof v);
-        if (r == 0 && !tag_has_attr(p + s, e - s, "allowed_cpuset")) allowed_known = 2;       /* stays full */
-        else if (r == 1) { allowed = hwloc_bitmap_alloc(); hwloc_bitmap_sscanf(allowed, v); allowed_known = 1; }
-      }
-    } else if (depth >= 1 && allowed_known && obj_type(p + s, e - s) == (int) HWLOC_OBJ_PU) {
-      if (allowed_known == 2) safe = 1;
-      else if (tag_attr(p + s, e - s, "os_index", v, sizeof v) == 1 && strlen(v) < 10 && isdigit((unsigned char) v[0])
-               && hwloc_bitmap_isset(allowed, (unsigned) strtoul(v, NULL, 10))) safe = 1;
-    }
-    if (!(e > s && p[e - 1] == '/')) depth++;
-  }
-  if (allowed) hwloc_bitmap_free(allowed);
-  return seen >= 1 && !safe;
-}
-
-/* LeakSanitizer suppressions for the leak classes F05i and F05k (see above) */
-__attribute__((visibility("default"))) const char *__lsan_default_suppressions(void) {
-  static char s[160];
-  s[0] = 0;
-  if (!env_on("VERIF_INCLUDE_F05I")) strcat(s, "leak:hwloc__xml_import_diff_one\n");
-  if (!env_on("VERIF_INCLUDE_F05K")) strcat(s, "leak:hwloc__xml_import_object\n");
-  return s;
-}
-
-/* returns 0 or the letter of the (not re-enabled) known class the input belongs to.  `p` has n content bytes + NUL. */
 static int known_class(const unsigned char *p, size_t n, char mode, unsigned long flags, int u) {
-  int topo = (mode == 'B' || mode == 'F');
-  if (nolibxml && topo && !INC('a') && class_a((const char *) p)) return 'a';
-  /* F05c was fixed in /repo (a86a9a9 "importing a v2 XML with unnamed latency distances called strcmp() on a NULL name"): the class
-   * is no longer excluded; VERIF_EXCLUDE_F05C=1 restores the exclusion for older trees */
-  if (topo && getenv("VERIF_EXCLUDE_F05C") && !INC('c') && class_c(p, n, flags)) return 'c';
-  if (topo && !INC('d') && class_d(p, n)) return 'd';
-  if (nolibxml && !INC('e') && class_e(p, n)) return 'e';
-  if (nolibxml && topo && u && !INC('f') && class_f(p, n)) return 'f';
-  if (!nolibxml && !INC('g') && class_g(p, n)) return 'g';
-  if (topo && !INC('h') && class_h(p, n)) return 'h';
-  if (topo && !INC('j') && class_j(p, n, flags)) return 'j';
-  if (topo && !INC('l') && class_l(p, n, flags)) return 'l';
-  if (topo && !INC('m') && class_m(p, n)) return 'm';
-  if (topo && !INC('o') && class_o(p, n, flags)) return 'o';
-  if (nolibxml && mode == 'D' && !INC('n') && class_n((const char *) p)) return 'n';
+  (void) flags; (void) u;
+  if (nolibxml && (mode == 'B' || mode == 'F') && 0 /* F71 fixed in /repo: never skipped */ && class_f71(p, n)) return '7';
   return 0;
 }
 
 /* ------------------------------------------------------------------ running one case */
 static FILE *fdump;
 static volatile unsigned long sink;
+static unsigned long n_f70, n_f72;
 static unsigned long nfail;
 static struct buf valid_doc;      /* a known valid topology document (for the "fresh topology after failure" check) */
 
@@ -545,9 +235,14 @@ static void battery(hwloc_topology_t t, const char *caseid, unsigned long xflags
 
   /* synthetic export */
   { char sb[4096];
+    /* F72 (open): the importer keeps whatever type the root <object> has; with a NUMANode (memory) root
+     * hwloc_topology_export_synthetic() aborts in hwloc_check_memory_symmetric (topology-synthetic.c:1547, assert(node)).
+     * Exact predicate on the LOADED topology: root is not a Machine -> synthetic export skipped unless VERIF_INCLUDE_F72=1. */
+    if (hwloc_get_root_obj(t)->type != HWLOC_OBJ_MACHINE && 0 /* F72 fixed in /repo */) n_f72++;
+    else {
     int r = hwloc_topology_export_synthetic(t, sb, sizeof sb, 0); if (r >= 0) sink += strlen(sb);
     r = hwloc_topology_export_synthetic(t, sb, sizeof sb, HWLOC_TOPOLOGY_EXPORT_SYNTHETIC_FLAG_NO_EXTENDED_TYPES | HWLOC_TOPOLOGY_EXPORT_SYNTHETIC_FLAG_NO_ATTRS | HWLOC_TOPOLOGY_EXPORT_SYNTHETIC_FLAG_IGNORE_MEMORY);
-    if (r >= 0) sink += strlen(sb); }
+    if (r >= 0) sink += strlen(sb); } }
 
   /* XML export, v2 and v3; re-import of the v3 export */
   { char *xb = NULL; int xl = 0;
@@ -572,8 +267,13 @@ static void battery(hwloc_topology_t t, const char *caseid, unsigned long xflags
     }
     hwloc_free_xmlbuffer(t, xb); }
 
-  /* dup */
-  if (caseid) {
+  /* dup.  F70 (open): the importer accepts a memory object below a NUMANode (only MemCache may have memory children);
+   * hwloc_topology_dup() of such a topology returns a topology rooted at the inner NUMANode and leaks the other objects.
+   * Exact predicate on the LOADED topology; the dup is skipped for it unless VERIF_INCLUDE_F70=1. */
+  int f70 = 0;
+  { hwloc_obj_t n = NULL; while ((n = hwloc_get_next_obj_by_type(t, HWLOC_OBJ_NUMANODE, n)) != NULL) if (n->memory_arity || n->memory_first_child) f70 = 1; }
+  if (f70 && 0 /* F70 fixed in /repo */) { n_f70++; }
+  else if (caseid) {
     hwloc_topology_t t2 = NULL; char tag[80]; snprintf(tag, sizeof tag, "%sd", caseid);
     if (hwloc_topology_dup(&t2, t) < 0) die("hwloc_topology_dup failed (errno %d)", errno);
     dump_topology(fdump, t2, tag); fflush(fdump);
@@ -610,6 +310,14 @@ static void walk_diff(hwloc_topology_diff_t d) {
 }
 
 /* returns 1 loaded, 2 failed cleanly, or the class letter when skipped.  `path` = file holding exactly the bytes. */
+/* poor man's MSan for pointers: fill the stack area the library is about to use with 0x5a so that an uninitialised local pointer
+ * (e.g. the former F05n: `tag` in hwloc_nolibxml_import_diff) is a wild pointer that faults instead of a stale valid one */
+static void __attribute__((noinline)) poison_stack(void) {
+  volatile unsigned char a[32768];
+  memset((void *) a, 0x5a, sizeof a);
+  sink += a[4097];
+}
+
 static int run_case(const char *caseid, const unsigned char *bytes, size_t len, char mode, unsigned long xflags, int u, const char *path, int size_override, int have_override) {
   alarm(60);   /* generous: the machine is shared and the build is ASan; an unreproduced hit is not reported */
   /* exact-size heap copy so that ASan sees the real bounds */
@@ -621,9 +329,11 @@ static int run_case(const char *caseid, const unsigned char *bytes, size_t len, 
   int ok = 0;
   if (mode == 'D') {
     hwloc_topology_diff_t diff = NULL; char *refname = NULL;
+    poison_stack();
     int r = hwloc_topology_diff_load_xmlbuffer((char *) copy, size, &diff, &refname);
     free(copy);
     if (r != 0 && r != -1) die("diff_load_xmlbuffer returned %d", r);
+    if (r == 0 && have_override && size <= 0) die("diff_load_xmlbuffer accepted a buffer of size %d", size);
     if (r == 0) { walk_diff(diff); if (refname) sink += strlen(refname); hwloc_topology_diff_destroy(diff); free(refname); ok = 1; }
     else { if (diff) die("diff_load_xmlbuffer failed but returned a list"); }
   } else {
@@ -631,10 +341,12 @@ static int run_case(const char *caseid, const unsigned char *bytes, size_t len, 
     if (hwloc_topology_init(&t) < 0) die("init");
     configure(t, xflags, u);
     int r;
+    poison_stack();
     if (mode == 'F') { r = hwloc_topology_set_xml(t, path); free(copy); }
     else { r = hwloc_topology_set_xmlbuffer(t, (char *) copy, size); free(copy); /* both back ends copy/parse at set time */ }
     if (r != 0 && r != -1) die("set_xml* returned %d", r);
-    if (r == 0) { r = hwloc_topology_load(t); if (r != 0 && r != -1) die("load returned %d", r); }
+    if (r == 0 && mode != 'F' && have_override && size <= 0) die("set_xmlbuffer accepted a buffer of size %d", size);
+    if (r == 0) { poison_stack(); r = hwloc_topology_load(t); if (r != 0 && r != -1) die("load returned %d", r); }
     if (r == 0) {
       dump_topology(fdump, t, caseid); fflush(fdump);
       battery(t, caseid, xflags);
@@ -996,7 +708,6 @@ static int write_file(const char *path, const unsigned char *p, size_t n) {
 int main(int argc, char **argv) {
   const char *lx = getenv("HWLOC_LIBXML");
   nolibxml = lx && !atoi(lx);
-  for (int c = 'a'; c <= 'p'; c++) { char nm[32]; snprintf(nm, sizeof nm, "VERIF_INCLUDE_F05%c", toupper(c)); inc[c - 'a'] = env_on(nm); }
   signal(SIGALRM, SIG_DFL);
 
   if (argc >= 4 && !strcmp(argv[1], "replay")) {
@@ -1009,7 +720,7 @@ int main(int argc, char **argv) {
     int have_override = 0, size_override = 0;
     if (argc > 7 && !strncmp(argv[7], "size=", 5)) { have_override = 1; size_override = atoi(argv[7] + 5); }
     int r = run_case_lc("c0", (unsigned char *) b, len, mode, xflags, u, argv[2], size_override, have_override);
-    if (r == 1) printf("case: loaded\n"); else if (r == 2) printf("case: failed\n"); else printf("case: skipped-F05%c\n", r);
+    if (r == 1) printf("case: loaded\n"); else if (r == 2) printf("case: failed\n"); else printf(r == '7' ? "case: skipped-F71\n" : "case: skipped-F05%c\n", r);
     free(b); fclose(fdump);
     return 0;
   }
@@ -1052,7 +763,7 @@ int main(int argc, char **argv) {
     else if (kind < 10) { /* unmutated */ }
     else { unsigned nm = 1 + rng_below(4); for (unsigned k = 0; k < nm; k++) mutate_once(&m); }
     if (m.n > 200000) { m.n = 200000; m.p[m.n] = 0; }
-    if (INC('b') && mode != 'F' && rng_chance(2)) { have_override = 1; size_override = rng_chance(70) ? 0 : -(int) rng_below(3) - 1; }
+    if (mode != 'F' && rng_chance(2)) { have_override = 1; size_override = rng_chance(70) ? 0 : -(int) rng_below(3) - 1; }
     snprintf(path, sizeof path, "%s/%s.xml", outdir, id);
     if (write_file(path, m.p, m.n) < 0) return 2;
     if (mode == 'D') { u = 0; xflags = 0; }
@@ -1061,11 +772,13 @@ int main(int argc, char **argv) {
     int res = run_case_lc(id, m.p, m.n, mode, xflags, u, path, size_override, have_override);
     if (res == 1) { fprintf(fplan, "loaded\n"); if (mode == 'D') remove(path); }
     else if (res == 2) { fprintf(fplan, "failed\n"); remove(path); }
-    else { fprintf(fplan, "skipped-F05%c\n", res); if (!env_on("VERIF_KEEP_SKIPPED")) remove(path); }
+    else { if (res == '7') fprintf(fplan, "skipped-F71\n"); else fprintf(fplan, "skipped-F05%c\n", res); if (!env_on("VERIF_KEEP_SKIPPED")) remove(path); }
     fflush(fplan);
-    if (kind >= 5 && kind < 10 && res == 2 && d->trusted && !(mode == 'D' && !d->isdiff) && !(mode != 'D' && d->isdiff))
+    if (kind >= 5 && kind < 10 && res == 2 && !have_override && d->trusted && !(mode == 'D' && !d->isdiff) && !(mode != 'D' && d->isdiff))
       die("unmutated seed document does not load (case %s mode %c)", id, mode);
   }
+  fprintf(fplan, "# f70-skipped %lu\n", n_f70);
+  fprintf(fplan, "# f72-skipped %lu\n", n_f72);
   fprintf(fplan, "# done\n");
   fclose(fplan); fclose(fdump);
   for (unsigned i = 0; i < ndocs; i++) free(docs[i].p);
